@@ -1,7 +1,8 @@
 #!/bin/sh
 # tools/check_refactor.sh : apply each kept behaviour-preserving refactoring (selftest/refactor/*.diff, written by
 # independent sub-agents: a rename / restructure clean-up against /repo commit 498c6e0, a "performance and readability
-# pass" that rewrites z3 terms into equivalent ones against f13786f) to a scratch worktree of /repo HEAD and run every
+# pass" that rewrites z3 terms into equivalent ones against f13786f, a "clean-up / modernisation" centred on solver.py
+# -- methods split into private helpers, dispatch helpers, early returns -- against f13786f) to a scratch worktree of /repo HEAD and run every
 # check against it: each must exit 0 (NOTE lines about loops or helpers are fine).  Hunks that no longer apply
 # (files repaired since) are left out.
 rc=0
